@@ -355,8 +355,20 @@ impl<'c, 'd> Parser<'c, 'd> {
 
             // We need all parameters to this SpecConstantOp.
             for loperand in g.operands {
-                if loperand.kind != GOpKind::IdResultType && loperand.kind != GOpKind::IdResult {
-                    operands.append(&mut self.parse_operand(loperand.kind)?);
+                match loperand.kind {
+                    GOpKind::IdResultType | GOpKind::IdResult => {}
+                    // No opcode permitted inside OpSpecConstantOp has operands of these
+                    // kinds (OpConstant, OpSpecConstant, OpSpecConstantOp, OpSwitch do),
+                    // and the generic operand parser cannot decode them.
+                    GOpKind::LiteralContextDependentNumber
+                    | GOpKind::LiteralSpecConstantOpInteger
+                    | GOpKind::PairLiteralIntegerIdRef => {
+                        return Err(State::SpecConstantOpIntegerIncorrect(
+                            self.decoder.offset(),
+                            self.inst_index,
+                        ))
+                    }
+                    kind => operands.append(&mut self.parse_operand(kind)?),
                 }
             }
             Ok(operands)
